@@ -220,7 +220,21 @@ struct snap_user {
 	int32_t outfragresent, fragsize, outpacketq_filled;
 	uint8_t encbits;
 	uint16_t inv;		/* structural invariants of the slot that do not hold (bit set), see table_invariants() */
+	uint32_t heap_kb;	/* (the same in every row) heap bytes currently allocated by the process, in KB */
 } __attribute__((packed));
+
+/* heap in use: the sanitizer runtime's own counter when there is one, glibc's otherwise (valgrind runs) */
+extern size_t __sanitizer_get_current_allocated_bytes(void) __attribute__((weak));
+#include <malloc.h>
+static uint32_t heap_in_use_kb(void)
+{
+	if (__sanitizer_get_current_allocated_bytes)
+		return (uint32_t)(__sanitizer_get_current_allocated_bytes() >> 10);
+	{
+		struct mallinfo2 mi = mallinfo2();
+		return (uint32_t)((mi.uordblks + mi.hblkhd) >> 10);
+	}
+}
 
 static struct snap_user last_snap[USERS];
 static unsigned last_snap_n = 0xffffffffu;
@@ -261,6 +275,7 @@ static void put_snapshot(void)
 {
 	static struct snap_user s[USERS];
 	unsigned i, n = users ? usercount : 0;
+	uint32_t heap_now = heap_in_use_kb();
 	if (n > USERS) n = USERS;
 	memset(s, 0, sizeof(s));
 	for (i = 0; i < n; i++) {
@@ -298,6 +313,7 @@ static void put_snapshot(void)
 		else if (u->encoder == &base128_ops) s[i].encbits = 7;
 		else s[i].encbits = 0;
 		s[i].inv = (uint16_t)table_invariants(u);
+		s[i].heap_kb = heap_now;
 	}
 	if (n == last_snap_n && memcmp(s, last_snap, n * sizeof(s[0])) == 0) {
 		q_u32(0);	/* unchanged */
